@@ -602,7 +602,11 @@ where
         }
 
         let shift = self.significant_bits() - divisor.significant_bits();
-        let mut divisor: Bvf<I, N> = divisor.try_into().expect("divisor should fit in Self");
+        // The divisor's value fits in Self (checked above) but its length might not
+        let divisor = divisor.copy_range(0..divisor.significant_bits());
+        let mut divisor: Bvf<I, N> = (&divisor)
+            .try_into()
+            .expect("divisor should fit in Self");
         divisor.resize(self.length, Bit::Zero);
         divisor <<= shift;
 
